@@ -506,6 +506,10 @@ class ShuffleRepeatBatchView:
   def __iter__(self) -> Iterator[Examples]:
     buf = np.arange(self._data_size, dtype=np.int32)
     buf_size = buf.shape[0]
+    if buf_size == 0:
+      # No example to draw from: produce no batches instead of spinning forever
+      # on an empty buffer (e.g. num_epochs=None, num_steps=1).
+      return
     # Start of unused portion of buf. We start with no unused values because we
     # haven't shuffled yet.
     i = buf_size
